@@ -66,6 +66,7 @@ type RunSpec struct {
 	LoadOnly bool // only type-check the packages and report what does not load (observation, not a verdict)
 	Permute  bool
 	WriteMon bool
+	SharedExplicit bool
 	Unwind   int
 	ReplayPkgDir func(harness string) string // directory of the package holding a harness
 	Transparent []string
@@ -173,6 +174,7 @@ func runCheck(p *Prop, tier string, seed int64) int {
 		cfg.Workers = runtime.NumCPU()
 		cfg.PermuteMaps = rs.Permute
 		cfg.WriteMonitor = rs.WriteMon
+		cfg.SharedExplicit = rs.SharedExplicit
 		cfg.ArbWide = rs.ArbWide
 		if rs.Unwind > 0 {
 			cfg.Unwind = rs.Unwind
